@@ -921,3 +921,28 @@ func (c *Ctx) Rejects(fn *ssa.Function, label string, when ...FM) bool {
 	}
 	return ok
 }
+
+// EnteredOnlyWhenAll: like EnteredOnlyWhenExcept, but on every counted edge
+// ALL of the listed facts must hold (the arm is taken only under the full
+// conjunction).
+func (c *Ctx) EnteredOnlyWhenAll(blk *ssa.BasicBlock, label string, skip func(*ssa.BasicBlock) bool, all ...FM) bool {
+	fn := blk.Parent()
+	c.inst(label + " <- " + c.siteStr(blk.Instrs[0]))
+	c.nontrivial(label + c.siteStr(blk.Instrs[0]))
+	ok := true
+	for _, p := range blk.Preds {
+		if skip != nil && skip(p) {
+			continue
+		}
+		for _, fs := range incomingFacts(p, blk) {
+			for _, fm := range all {
+				if _, h := hasFact(fs, fm); !h {
+					ok = false
+					c.violate(p.Instrs[len(p.Instrs)-1], fn, label, label+": this arm is entered on an edge where one of the required conditions is not known to hold; facts on the edge: "+factsStr(fs), nil)
+					break
+				}
+			}
+		}
+	}
+	return ok
+}
